@@ -12,9 +12,10 @@ def tu_check(tu):
     c = changed.analyse_conv(tu)
     u = unlink.c_rules(tu)
     w = setwiring.c_rules(tu)
-    from ..rules import firstbucket
+    from ..rules import firstbucket, sepguard
     fb = firstbucket.analyse_tu(tu)
-    f = a["findings"] + b["findings"] + c["findings"] + u["findings"] + fb["findings"] + \
+    sg = sepguard.c_check(tu)
+    f = a["findings"] + b["findings"] + c["findings"] + u["findings"] + fb["findings"] + sg["findings"] + \
         [x for x in w["findings"] if x["rule"] == "ALIAS-GUARD"]
     # the setstate loaders are not single-key calls
     f = [x for x in f if not (x["rule"] == "CONV-BEFORE-MUT" and "setstate" in (x.get("function") or ""))]
@@ -62,7 +63,7 @@ def py_keyerror_clean(res):
 def run(tier="quick", seed=0, use_cache=True):
     res = engine.Result("C01")
     res.rules = ["NONE-ORD", "SEARCH-DEFUSE", "SEARCH-BRANCH", "CONV-BEFORE-MUT",
-                 "KEYERROR-AFTER-MUT", "GROW-ROLLBACK", "UNLINK-STATUS", "ALIAS-GUARD", "PY-TAINT", "FIRSTBUCKET-INV"]
+                 "KEYERROR-AFTER-MUT", "GROW-ROLLBACK", "UNLINK-STATUS", "ALIAS-GUARD", "PY-TAINT", "FIRSTBUCKET-INV", "SEP-REFRESH"]
     res.explanation = (
         "Structural necessary conditions of sorted-map behaviour, decided "
         "from source for all 22 translation units and the Python classes: "
@@ -103,6 +104,9 @@ def run(tier="quick", seed=0, use_cache=True):
     res.count("UNLINK-STATUS", sum(r["stats"]["unlink"] for r in out.values()))
     res.floor("stores of a node's firstbucket (OO)", out["OO"]["stats"]["fb"], 5)
     res.count("FIRSTBUCKET-INV", sum(r["stats"]["fb"] for r in out.values()))
+    from ..rules import sepguard
+    sepguard.py_check(res)
+    res.count("SEP-REFRESH", 12 * len(out))
     res.count("ALIAS-GUARD", sum(r["stats"]["inplace"] for r in out.values()))
     od.none_order_py(res)
     od.search_py(res)
